@@ -1,5 +1,6 @@
 """C02 — hostile flat input is absorbed: total, confined, bounded, order-free."""
 import copy
+import json
 import random
 import unicodedata
 
@@ -276,6 +277,9 @@ class C02(Property):
             mk(L, [["l_0_s", "a"], ["l_0_s_", "b"]]),                        # doubled separator tail
             mk(L, [["l_0_s", "a"], ["l_00_s", "b"]]),                        # KF-C02-a alias witness
             mk(SP, [["abc", "x"]]),                                          # KF-C02-b witness
+            {"schema": {"t": "dict", "name": None, "opt": False, "mode": "dense", "fields": [
+                {"t": "array", "name": "", "opt": False, "prune": True, "multi": False, "member": S("(x)")}]},
+             "kinds": kinds, "sep": "a", "pairs": [["(x)", "x"]]},           # KF-C02-c witness: a field named ''
         ]
 
     def generate(self, rng, n, tier):
@@ -302,7 +306,8 @@ class C02(Property):
                 "_lens": list_lengths(el, schema)}
 
     def has_model(self, case):
-        return not fl.digit_sep(case["sep"])
+        # fields named '' are outside the model's address specification (KF-C02-c): oracle only
+        return not fl.digit_sep(case["sep"]) and not any(x.get("name") == "" for x in fl.walk_schema(case["schema"]))
 
     def model_input(self, case, obs):
         return {"schema": case["schema"], "sep": case["sep"], "pairs": case["pairs"],
@@ -378,6 +383,18 @@ class C02(Property):
                 return None
             return "KF-C02-a"
         if failure.get("clause") == "confined":
+            # KF-C02-c predicts: below a container field named '' (accepted by Dict.of) the separator that
+            # should follow the empty name is not demanded: the stray key is an address once that separator
+            # is put in front of it
+            k = failure.get("key")
+            if isinstance(k, str) and any(x.get("name") == "" for x in fl.walk_schema(schema)):
+                P = "\ue000"                      # read the '' names literally: give them a real (fresh) name
+                lit = json.loads(json.dumps(schema))
+                for x in fl.walk_schema(lit):
+                    if x.get("name") == "":
+                        x["name"] = P
+                if not addresses(lit, sep, k) and addresses(lit, sep, P + sep + k):
+                    return "KF-C02-c"
             # KF-C02-b: the only effect is a blank member materialised in a sparse dict
             w, wo = failure.get("with"), failure.get("without")
             if isinstance(w, dict) and isinstance(wo, dict) and "raise" not in w and "raise" not in wo:
